@@ -1,5 +1,6 @@
 import Bmc.Lemmas.SessionProps
 import Bmc.Lemmas.SessionlessSpec
+import Bmc.Lemmas.ResponseAccepted
 /-! # C10 — retries re-send the same well-formed request until a final answer arrives (property theorems only)
 
 `expected` / `slExpected` are the documented contract as a fold over the per-attempt outcomes: the first reply that
@@ -49,6 +50,52 @@ theorem unserialisable_sends_nothing (C : Ops) (c : Cmd) (hf : c.reqFails = true
     (o : Outcome) (rest : List Outcome) :
     (sendLoop C c s (iv :: ivs) (o :: rest)).2 = ([], .serializeErr) ∧ slSend c (o :: rest) = ([], .serializeErr) := by
   simp [sendLoop, slSend, hf]
+
+/-- a conforming response as the script sees it: (completion code, body, wrapper sequence number, IV) -/
+structure BmcAnswer where
+  cc : UInt8
+  data : Bytes
+  seq : Nat
+  iv : Bytes
+
+def BmcAnswer.ok (C : Ops) (k : Keys) (c : Cmd) (a : BmcAnswer) : Prop :=
+  a.iv.length = 16 ∧ (responseMsg c a.cc).WF ∧ a.seq < 4294967296 ∧ (responseAes C k c a.cc a.data a.iv).length < 65536
+
+def BmcAnswer.datagram (C : Ops) (k : Keys) (c : Cmd) (a : BmcAnswer) : Outcome :=
+  .reply (responseDatagram C k c a.cc a.data a.seq a.iv)
+
+/-- RETRY LIVENESS, in session: the BMC answers any number of times with conforming responses carrying a temporary
+    completion code (node busy C0 / timeout C3) and then with a conforming response carrying another code: the
+    library transmits the command's datagram once per answer — each the complete datagram for THIS command with the next
+    sequence number and IV draw — and returns that code and that body. For every lawful crypto, key set, command,
+    counter, number of busy answers, and whatever follows in the script. -/
+theorem busy_then_final (C : Ops) (hC : C.Lawful) (c : Cmd) (hf : c.reqFails = false) (s : Sess) (hs : s.inbound < 4294967296)
+    (hid : s.localID < 4294967296) (busy : List BmcAnswer) (fin : BmcAnswer) (rest : List Outcome) (ivs : List Bytes)
+    (hb : ∀ a ∈ busy, a.ok C s.keys c ∧ isTemp a.cc = true) (hfin : fin.ok C s.keys c) (hnt : isTemp fin.cc = false)
+    (hl : busy.length + 1 + rest.length ≤ ivs.length) :
+    (sendLoop C c s ivs (busy.map (BmcAnswer.datagram C s.keys c) ++ fin.datagram C s.keys c :: rest)).2 =
+      ((List.range (busy.length + 1)).map (fun i => datagramOf C s.keys c ((s.inbound + i) % 4294967296) (ivs.getD i [])),
+       .ok fin.cc fin.data) := by
+  have hexp : expected (classify C s.keys c) (busy.map (BmcAnswer.datagram C s.keys c) ++ fin.datagram C s.keys c :: rest)
+      = (busy.length + 1, .ok fin.cc fin.data) := by
+    clear hl
+    induction busy with
+    | nil =>
+      obtain ⟨h1, h2, h3, h4⟩ := hfin
+      simp only [List.map_nil, List.nil_append, BmcAnswer.datagram, expected,
+        classify_response C hC s.keys c fin.cc fin.data fin.seq fin.iv h1 h2 hid h3 h4, hnt]
+      rfl
+    | cons a busy ih =>
+      obtain ⟨⟨h1, h2, h3, h4⟩, ht⟩ := hb a (by simp)
+      have := ih (fun x hx => hb x (by simp [hx]))
+      simp only [List.map_cons, List.cons_append, BmcAnswer.datagram, expected,
+        classify_response C hC s.keys c a.cc a.data a.seq a.iv h1 h2 hid h3 h4, ht, if_true]
+      simp only [BmcAnswer.datagram] at this
+      rw [this]
+      rfl
+  have hspec := sendLoop_spec C c hf s hs ivs _ (by simp; omega : (busy.map (BmcAnswer.datagram C s.keys c) ++ fin.datagram C s.keys c :: rest).length ≤ ivs.length)
+  rw [hexp] at hspec
+  exact Prod.ext hspec.2.1 hspec.1
 
 example : expected (fun d => if d = [1] then Class.final 0 [9] else .retry) [.reply [2], .reply [1], .lost] = (2, .ok 0 [9]) := by
   decide
